@@ -569,6 +569,12 @@ func (fv *FV) box(st *State, v Term, from types.Type, to *Sort, pos token.Pos) T
 	case KFn:
 		return v
 	}
+	if (v.Sort.Kind == KMap && to.Kind == KMap) || (v.Sort.Kind == KSlice && to.Kind == KSlice) {
+		// the same Go type seen through a recursive reference (a map/slice field of a recursive struct) and directly:
+		// the unfolded value is not tracked; an arbitrary well-formed value of the target sort over-approximates it
+		fv.note("value of a recursive data structure passed on as an arbitrary value of its type (contents not tracked)")
+		return fv.fresh("unfold", to)
+	}
 	fv.abort(pos, "cannot convert sort %s to %s", v.Sort.Name, to.Name)
 	return v
 }
